@@ -448,17 +448,36 @@ func c03CLICheck(c *core.Ctx, cs c03Case, res c03Result) {
 		c.Violation("cli-crash", "", fmt.Sprintf("goawk -f crashed (exit %d): %s", code, firstLineOf(es)), "exit 0/1 with a message", core.Clip(es, 1500), cs)
 		return
 	}
+	seen := src // the text the CLI parses
+	if len(src) > 0 && src[len(src)-1] != '\n' {
+		seen = append(append([]byte{}, src...), '\n')
+		// The CLI appends a newline to a program file that lacks one, so what it parses is that
+		// text: a final backslash becomes a line continuation, a final comment gets its end.
+		// Judge the CLI against the parse of the text it really sees.
+		res = c03Result{}
+		if _, err, pm := run.Parse(string(src)+"\n", nil); pm != "" {
+			return // the in-process monitors report parser panics
+		} else if err == nil {
+			res.parsedOK = true
+		} else if pe, ok := err.(*parser.ParseError); ok {
+			res.errMsg, res.errLine, res.errCol = pe.Message, pe.Position.Line, pe.Position.Column
+		}
+		c.Count("cli_newline_appended", 1)
+	}
 	if res.parsedOK || res.errMsg == "" {
+		if res.parsedOK && code != 0 {
+			c.Violation("cli-exit", "", fmt.Sprintf("the program parses but goawk -d exited with status %d: %s", code, firstLineOf(es)), "0", fmt.Sprint(code), cs)
+		}
 		return
 	}
 	// The CLI appends a newline if the file lacks one; positions are unchanged by that.
-	m := newPosMap(src)
+	m := newPosMap(seen)
 	lines := strings.SplitN(es, "\n", 3)
 	first := lines[0]
 	// Error at the very end of the program text: the CLI has appended a newline to a file
 	// lacking one and names that position differently (don't-care, see DESIGN.md C03).
 	errOff, okOff := m.offset(res.errLine, res.errCol)
-	eofLine := okOff && errOff >= len(src)
+	eofLine := okOff && errOff >= len(seen)
 	wantPrefix := fmt.Sprintf("%s:%d:%d: ", pf, res.errLine, res.errCol)
 	if eofLine {
 		c.Count("cli_eof_position_dontcare", 1)
